@@ -1,6 +1,7 @@
 """C15 — correlograms count exactly the spike pairs in each lag bin (DESIGN.md §5 C15)."""
 import functools
 import itertools
+import json
 import math
 from fractions import Fraction
 import numpy as np
@@ -12,7 +13,8 @@ PARALLEL = False
 BATCH = 3000
 BUDGET_S = {'quick': 70, 'thorough': 900}
 RULE = ('exhaustive: all sorted trains of length <= L on a small time grid (equal times included) x '
-        'labelings over <= 3 clusters x cluster-id lists in every order incl. ids without spikes x '
+        'labelings over <= 3 clusters (and the labelings that USE 4 clusters: all of them for 4 spikes, one in 12 for 5) x '
+        'cluster-id lists in every order incl. ids without spikes x '
         '(bin, half-window) grid x symmetrize on/off, windows that are odd, even and fractional multiples of the bin, '
         'bins that are a whole or a fractional number of samples, negative times; then random long trains; then '
         'ARBITRARY DOUBLES: decimal bins/windows (0.1/2, 0.05/1, 0.001/0.5, 0.002/0.1, ...) x rates 30000/25000/1000/10/... x '
@@ -20,7 +22,11 @@ RULE = ('exhaustive: all sorted trains of length <= L on a small time grid (equa
         'windows an ulp around a whole number of samples / bins, clipped bins; the float model itself (op fl: '
         'roundDouble against float(Fraction) and against products / quotients of random doubles: ties, powers of two, '
         'tiny / huge magnitudes); the helpers _increment / _diff_shifted / _create_correlograms_array on small arrays; '
-        'firing_rate with cluster_ids given or None, durations 0 / None / dyadic / non-dyadic. non-trivial = at '
+        'firing_rate with cluster_ids given or None, durations 0 / None / dyadic / non-dyadic; spike_clusters of every '
+        'integer dtype (int8..int64, uint8..uint64), rate / bin / window as Python floats, np.float64, np.float32 scalars '
+        '(float32 only where every operation is exact in float32 too) and a whole rate as a Python int. '
+        'A bin that is NOT a whole number of samples (float product rate*bin fractional) is judged by the STATEMENT\'s own '
+        'counts floor((t_b - t_a)/bin) with the caller\'s bin (Lean specSeconds). non-trivial = at '
         'least one spike pair inside the window (model array has a non-zero entry)')
 ASSUMPTIONS = [
     'float -> sample conversion ((times*rate).astype(int64), int(rate*clip(bin)), 2*int(.5*clip(window)/clip(bin))+1) is '
@@ -32,6 +38,21 @@ ASSUMPTIONS = [
     'that differs from the sample-level pair counts of the model\'s integers is SPEC when every float product time*rate is '
     'a whole number and bin/window are inside the clipping interval, and CORR (real code differs from the model of the '
     'code) otherwise; inputs outside the normal range of binary64 (FlDom false) are never judged',
+    'a bin that is not a whole number of samples (the float product rate*bin is fractional; the quantifier puts no condition on '
+    'the bin): the real output is compared with the statement\'s own counts floor((t_b - t_a)/bin) for the CALLER\'s bin '
+    '(Lean specSeconds, evaluated as stmtSeconds: theorem stmtSeconds_eq), read in seconds on the exact values of the doubles '
+    'and in samples on the float products (theorem specSeconds_units: the same array when the products are exact; on decimal '
+    'inputs the two can differ at a bin boundary by rounding noise). Equal to either reading: conform (CORR if it differs '
+    'from the model of the code). Different from BOTH and equal to the model of the code, which counts with the truncated bin '
+    'int(rate*bin) (theorem correlogramsQ_truncates): class bin_truncated_to_whole_samples = the open known finding. Different '
+    'from all three: SPEC. The half window in bins is the code\'s winsize_bins // 2 (the statement does not define it from the '
+    'window size)',
+    'times BETWEEN two samples (product time*rate exact but not whole, e.g. a half-sample grid) are read as outside the '
+    'quantifier ("spike trains on a small time grid", "sample rates for which time*rate is exact" = the product gives back the '
+    'sample number): graded CORR against the model, which truncates toward zero like the code; how often the code then differs '
+    'from the statement\'s counts is tallied only',
+    'the count array of the code is int32, the model counts in unbounded naturals: theorem correlogramsArr_int32 shows that '
+    'every count is below 2^31 for at most 65536 spikes; the generators stay below 400 spikes',
     'firing_rate: the model computes count_i*count_j*bin/duration as a rational; compared exactly when the two float '
     'operations of the code are exact on the input, with the DESIGN §3 tolerance 2^-40 (relative) otherwise',
 ]
@@ -52,7 +73,41 @@ def _prep(case):
         window = case.get('wmult', 2 * case['half'] + 1) * bin_size
     if case.get('tdtype'):
         times = times.astype(case['tdtype'])         # e.g. float32 spike times (converted exactly to float64 by the code)
+    bin_size, window = float(bin_size), float(window)
+    if case.get('argkind') == 'np32' and _f32_safe(r, bin_size, window):
+        # the VALUES handed over are those of the float32 scalars
+        r, bin_size, window = (float(np.float32(x)) for x in (r, bin_size, window))
     return r, times, bin_size, window
+
+
+def _is_f32(fr):
+    with np.errstate(over='ignore'):
+        v = np.float32(float(fr))
+    return bool(np.isfinite(v)) and Fraction(float(v)) == fr
+
+
+def _f32_safe(r, b, w):
+    """np.float32 arguments make NumPy evaluate rate*bin and .5*window/bin in float32 or float64 depending on which
+    of them are float32 (NEP 50); the model rounds to binary64.  Used only where every such operation is exact in
+    float32 (then it is exact in both precisions and the model applies), away from the clipping bounds (the float32
+    value of 1e-5 is another number)."""
+    R, B, W = (Fraction(float(np.float32(x))) for x in (r, b, w))
+    if not (R > 0 and Fraction(1, 10000) < B < 10000 and Fraction(1, 10000) < W < 10000):
+        return False
+    return _is_f32(R * B) and _is_f32(W / 2) and _is_f32(W / 2 / B)
+
+
+def _wrap_args(case, r, bin_size, window):
+    """rate / bin / window as the caller's scalar types"""
+    k = case.get('argkind')
+    if k == 'np64':
+        return np.float64(r), np.float64(bin_size), np.float64(window)
+    if k == 'np32' and _f32_safe(r, bin_size, window):
+        which = case.get('arg32', 'rbw')
+        return tuple(np.float32(x) if c in which else x for c, x in zip('rbw', (r, bin_size, window)))
+    if k == 'intrate' and float(r).is_integer():
+        return int(r), bin_size, window
+    return r, bin_size, window
 
 
 @functools.lru_cache(maxsize=1 << 16)
@@ -77,6 +132,7 @@ def impl(case):
     from phylib.stats.ccg import correlograms, firing_rate
     if case['op'] == 'ccg':
         r, times, bin_size, window = _prep(case)
+        r, bin_size, window = _wrap_args(case, r, bin_size, window)
         base = case.get('idbase', 0)          # the same labelling with every cluster id shifted by a constant
         sc = np.array([c + base for c in case['sc']], dtype=getattr(np, case.get('dtype', 'int64')))
         ids = case.get('ids')
@@ -168,6 +224,7 @@ def model_query(case, impl_res):
             q['ids'] = case['ids']
         if len(case['sc']) <= 8:
             q['spec'] = 1
+        q['stmt'] = 1         # the statement's own counts where the bin is not a whole number of samples
         return q
     if case['op'] == 'fl':
         xs = []
@@ -238,6 +295,7 @@ def judge(case, impl_res, ans):
             return 'CORR: %s: real %s, model %s' % (case['op'], real, m['model'])
         return None
     if case['op'] == 'ccg':
+        case.pop('_c15_trunc', None)
         if m.get('fl_dom') is False:
             return None       # a product / quotient outside the normal range of binary64: not modelled (tallied)
         if m.get('model') is None:
@@ -263,7 +321,26 @@ def judge(case, impl_res, ans):
         want = [nc, nc, (2 * half + 1) if case['sym'] else half + 1]
         if impl_res['ok']['shape'] != want:
             return '%s: wrong shape %s, expected %s (%s)' % (kind, impl_res['ok']['shape'], want, ints)
-        if arr != exp:
+        if kind == 'SPEC' and not m['bin_whole']:
+            # the bin is NOT a whole number of samples: the statement counts with the caller's bin, the code (and its
+            # model) with the truncated one.  The statement's own counts, in seconds and in samples (see ASSUMPTIONS)
+            if m.get('stmt_eq_spec') is False:
+                return 'MACHINERY: stmtSeconds differs from specSeconds (contradicts the theorem)'
+            stmts = (m['stmt_sec'], m['stmt_grid'])
+            qs = 'rate*bin = %s samples' % (Fraction(*m['bin_prod']) if isinstance(m['bin_prod'], list) else m['bin_prod'])
+            if arr in stmts:
+                if arr != exp:
+                    return ('CORR: correlogram equals the statement\'s pair counts for the caller\'s bin, not those of the '
+                            'model of the code, which truncates the bin (%s; %s)' % (qs, ints))
+            elif arr == exp:
+                case['_c15_trunc'] = True
+                return ('%s: bin_size is not a whole number of samples (%s) and the correlogram holds the pair counts for '
+                        'the bin TRUNCATED to %s samples, not floor((t_b - t_a)/bin) for the bin given: real %s, statement %s'
+                        % (TRUNC_KIND, qs, m['binsize'], _brief(arr), _brief(m['stmt_sec'])))
+            else:
+                return ('SPEC: correlogram differs from the statement\'s pair counts for the caller\'s bin AND from the pair '
+                        'counts for the truncated bin (%s; %s)' % (qs, ints))
+        elif arr != exp:
             return '%s: correlogram differs from the pair counts (%s)' % (kind, ints)
         if impl_res['ok'].get('args_changed'):
             return 'SPEC: correlograms modified the spike-time / cluster arrays passed by the caller'
@@ -289,6 +366,16 @@ def judge(case, impl_res, ans):
                 if (a != e) if exact_dom else (abs(a - e) > 2.0 ** -40 * max(1., abs(e))):
                     return 'SPEC: firing-rate normaliser differs from outer(counts)*bin/duration'
         return None
+
+
+# verdict kind of the open known finding: a kind of its own, so that shrinking another SPEC failure cannot drift into
+# this class (and be swallowed by the known finding) nor the other way round
+TRUNC_KIND = 'SPEC(bin truncated to whole samples)'
+
+
+def _brief(a):
+    t = json.dumps(a, separators=(',', ':'))
+    return t if len(t) <= 120 else t[:117] + '...'
 
 
 def nontrivial(case):
@@ -332,6 +419,20 @@ def tally(rep, case, impl_res, ans):
                 'on' if m.get('on_grid') else 'OFF', ', bin/window clipped' if m.get('clipped') else ''))
             rep.count('exact-rational conversions give %s integers as the float model' % (
                 'the same' if m.get('q_same') else 'OTHER'))
+            ok = impl_res.get('ok') or {}
+            if m.get('on_grid') and not m.get('clipped') and not m.get('bin_whole'):
+                arr = ok.get('arr')
+                rep.count('bin NOT a whole number of samples (judged by the statement\'s counts): real output %s' % (
+                    'raised' if arr is None else
+                    'equals the statement and the model of the code' if arr in (m['stmt_sec'], m['stmt_grid']) and arr == m['model'] else
+                    'equals the statement, NOT the model' if arr in (m['stmt_sec'], m['stmt_grid']) else
+                    'equals the model (truncated bin), NOT the statement [known finding]' if arr == m['model'] else
+                    'differs from both'))
+                if m['stmt_sec'] != m['stmt_grid']:
+                    rep.count('statement in seconds (exact doubles) and in samples (float products) differ by rounding noise')
+            elif not m.get('on_grid') and 'stmt_sec' in m:
+                rep.count('times BETWEEN samples with exact products (outside the quantifier, not judged by the statement): '
+                          'real output %s the statement\'s counts' % ('equals' if ok.get('arr') == m['stmt_sec'] else 'differs from'))
         if case.get('flkind'):
             rep.count('doubles: ' + case['flkind'])
         if 'times' not in case:
@@ -358,6 +459,16 @@ def tally(rep, case, impl_res, ans):
         if len(set(tt)) < len(tt):
             rep.count('equal_times')
         rep.count('times_dtype:%s' % case.get('tdtype', 'float64'))
+        rep.count('spike_clusters dtype:%s' % case.get('dtype', 'int64'))
+        k = case.get('argkind')
+        if k:
+            r0, _, b0, w0 = _prep(case)
+            rep.count('rate/bin/window scalars: %s' % (
+                'np.float64' if k == 'np64' else
+                ('np.float32 (%s)' % case.get('arg32', 'rbw') if _f32_safe(r0, b0, w0) else 'np.float32 wanted, not exact there: Python floats') if k == 'np32' else
+                'whole rate as a Python int' if float(r0).is_integer() else 'Python floats'))
+        if len(set(case['sc'])) >= 4:
+            rep.count('4 or more clusters in use')
         rep.count('ids_container:%s' % (case.get('idskind', 'list') if ids is not None else 'None'))
         if case.get('pre_ids') is not None:
             rep.count('id_array_reordered_in_place_after_an_earlier_call')
@@ -366,11 +477,19 @@ def tally(rep, case, impl_res, ans):
 
 
 def classify(case, impl_res, ans, why):
+    if why.split(':')[0] == TRUNC_KIND:
+        # narrow: the call site (ccg.py:126 binsize = int(sample_rate * bin_size)), the input class (spike times on the
+        # sample grid, float product rate*bin fractional, nothing clipped) and what is observed (the real output IS the
+        # pair-count array of the truncated bin and is NOT the statement's array) - judge() returns this kind only then
+        return dict(op='ccg', site='bin_truncated_to_whole_samples', where='ccg.py:126', fractional_rate_bin=True,
+                    times_on_sample_grid=True, observed='pair counts of the truncated bin')
     return dict(op=case['op'], kind=why.split(':')[0], sym=case.get('sym'),
                 raised=impl_res.get('raised'), where=impl_res.get('where'))
 
 
 def shrink(case):
+    if case.get('_c15_trunc'):
+        return      # the known finding (minimised in corpus/C15/pf_bin_truncated_to_whole_samples.json): nothing to shrink
     if case['op'] == 'ccg':
         tk = 'times' if 'times' in case else 't'
         n = len(case[tk])
@@ -439,13 +558,15 @@ def _float_case(rng, kind, r, b, w, n, **kw):
     if rng.random() < .12:
         off = times[len(times) // 2]
         times = [t - off for t in times]            # negative times (exact subtraction or not: they are just doubles)
-    nc = rng.randrange(1, 4)
+    nc = rng.randrange(1, 5)
     sc = [rng.randrange(nc) for _ in range(n)]
     c = dict(p=PID, op='ccg', times=times, sc=sc, rate=r, bin_size=b, window=w, sym=rng.random() < .5, flkind=kind)
     if rng.random() < .5:
         ids = list(range(nc + rng.randrange(0, 2)))
         rng.shuffle(ids)
         c['ids'] = ids
+    if rng.random() < .15:
+        c['argkind'] = rng.pick(['np64', 'np64', 'intrate'])
     c.update(kw)
     return c
 
@@ -554,6 +675,9 @@ def gen(tier, rng):
     q = tier == 'quick'
     L, G = (5, 5) if q else (6, 6)
     idsets = [None, [0, 1], [1, 0], [0, 1, 2], [2, 0, 1], [1, 3, 0], [3, 1, 0, 2]]
+    # share of the bins that are not a whole number of samples: most of them are cases of the open known finding
+    # (bin_truncated_to_whole_samples), and check evaluates every such case a second time, one by one
+    fshare = 45 if q else 7
     cnt = 0
     for n in range(0, L + 1):
         for t in itertools.combinations_with_replacement(range(G), n):
@@ -573,11 +697,41 @@ def gen(tier, rng):
                     # not a whole number of samples (the code truncates), negative times
                     if (cnt // 5) % 3 == 1:
                         c['wmult'] = [2 * h, 2 * h + 1.75, 2 * h + 0.5][cnt % 3] if h > 0 else [1.5, 1.75][cnt % 2]
-                    if cnt % 7 == 2:
-                        c['binfrac'] = [0.5, 0.25][cnt % 2]
+                    if cnt % fshare == 2:
+                        c['binfrac'] = [0.5, 0.25][(cnt // fshare) % 2]
                     if cnt % 11 == 3:
                         c['t'] = [v - 3 for v in c['t']]
+                    if cnt % 13 == 5:
+                        # rate / bin / window as NumPy scalars or a Python int (np.float32 where exact, see _f32_safe)
+                        c['argkind'] = ('np64', 'np32', 'intrate', 'np32', 'np64')[(cnt // 13) % 5]
+                        if c['argkind'] == 'np32':
+                            c['arg32'] = ('rbw', 'b', 'bw', 'r', 'w', 'rb')[(cnt // 52) % 6]
                     yield c
+    # all labelings that USE four clusters (the quantifier: 1..4), trains of 4 and 5 spikes, id lists in every order
+    perms4 = list(itertools.permutations(range(4)))
+    cnt = met = 0
+    for n, G in ((4, 4), (5, 3)):
+        for t in itertools.combinations_with_replacement(range(G), n):
+            for sc in itertools.product(range(4), repeat=n):
+                if len(set(sc)) < 4:
+                    continue
+                met += 1
+                if n == 5 and met % 12:
+                    continue                      # 5 spikes: one labeling in 12
+                cnt += 1
+                B, h = ((1, 1), (2, 1), (1, 3), (1, 0), (3, 2))[cnt % 5]
+                c = dict(p=PID, op='ccg', t=list(t), sc=list(sc), bin=B, half=h, rate=(1., 2., 1024., 1000.)[cnt % 4],
+                         sym=bool(cnt % 3 == 0))
+                k = cnt % 7
+                if k < 4:
+                    c['ids'] = list(perms4[(cnt // 7) % 24])
+                elif k < 6:
+                    ids = list(perms4[(cnt // 7) % 24])
+                    ids.insert(cnt % 5, 4 + cnt % 3)          # an id without spikes somewhere in the list
+                    c['ids'] = ids
+                if cnt % 9 == 4:
+                    c['binfrac'] = [0.5, 0.25][cnt % 2]
+                yield c
     # firing rates
     for n in range(0, 6):
         for sc in itertools.product(range(3), repeat=n):
@@ -626,7 +780,7 @@ def gen(tier, rng):
         sc = [rng.pick(used) for _ in range(n)]
         c = dict(p=PID, op='ccg', t=t, sc=sc, bin=rng.pick([1, 2, 3, 7, 16]), half=rng.pick([0, 1, 2, 5, 12]),
                  rate=rng.pick([1., 4., 1000., 30000.]), sym=rng.random() < .5,
-                 dtype=rng.pick(['int64', 'int32', 'uint32']))
+                 dtype=rng.pick(['int64', 'int32', 'uint32', 'uint64', 'int16', 'uint16', 'int8', 'uint8']))
         if rng.random() < .8:
             rng.shuffle(pool)
             c['ids'] = list(pool)
@@ -635,6 +789,10 @@ def gen(tier, rng):
                 c['pre_ids'] = rng.sample(c['ids'], len(c['ids']))
         if rng.random() < .2:
             c['timeskind'] = 'list'
+        if rng.random() < .3:
+            c['argkind'] = rng.pick(['np64', 'np32', 'intrate'])
+            if c['argkind'] == 'np32':
+                c['arg32'] = rng.pick(['rbw', 'b', 'bw', 'r', 'w', 'rb'])
         if c['dtype'] == 'int64' and rng.random() < .3:
             c['idbase'] = rng.pick([1000, 1000000, 5000000])    # large cluster ids
         if rng.random() < .25:
